@@ -19,7 +19,10 @@ Inductive fop :=
 | SfmRename (s : nat)                (* rename(<s>.sfm.tmp, <s>.sfm) *)
 | SfmTruncate (s : nat)              (* pre-fix protocol: open(<s>.sfm, O_TRUNC) *)
 | SfmWriteInPlace (s nb : nat)       (* pre-fix protocol: write into <s>.sfm *)
-| SegmetaAppend (s : nat).           (* the segment's line appended to segmeta.json *)
+| SegmetaAppend (s : nat)            (* the segment's line appended to segmeta.json *)
+| PqmrWrite (s : nat).               (* one write(2) appending to <s>/pqmr/<pqid>.pqmr (persistent-query match results of
+                                        the block just flushed; FlushPqmr runs after WriteRunningSegMeta; the content of
+                                        that file and what a restart reads from it are modelled in PqmrProto.v) *)
 
 (* content of a .sfm file *)
 Inductive sfmfile := NoFile | Invalid | Valid (nb : nat).
@@ -33,7 +36,7 @@ Definition upd (f : fs) (s : nat) (x : segst) : fs := fun t => if Nat.eqb t s th
 
 Definition step (f : fs) (o : fop) : fs :=
   match o with
-  | ColWrite _ | SstWrite _ | SstRename _ | SegmetaAppend _ => f
+  | ColWrite _ | SstWrite _ | SstRename _ | SegmetaAppend _ | PqmrWrite _ => f
   | BsuAppend s => upd f s {| bsu := S (bsu (f s)); sfm := sfm (f s); tmp := tmp (f s) |}
   | SfmTmpTrunc s => upd f s {| bsu := bsu (f s); sfm := sfm (f s); tmp := Invalid |}
   | SfmTmpWrite s nb => upd f s {| bsu := bsu (f s); sfm := sfm (f s); tmp := Valid nb |}
@@ -54,7 +57,9 @@ Definition visible (f : fs) (nseg : nat) : list (nat * nat) := flat_map (seg_vis
 
 (* ---------- histories ---------- *)
 (* a flush issues m writes to column/micro-index/rollup files and n writes to the .sst.tmp file *)
-Inductive hstep := Flush (m n : nat) | Rotate.
+(* when persistent queries are active for the index, the flush goes on (after the .sfm) with p appending writes to the
+   segment's pqmr files: four per persistent query (blkNum, size, bitset length, bitset words) *)
+Inductive hstep := Flush (m n : nat) | Rotate | PqWrites (p : nat).
 
 (* WriteSfm, current code *)
 Definition sfm_ops (s nb : nat) : list fop := [SfmTmpTrunc s; SfmTmpWrite s nb; SfmRename s].
@@ -79,6 +84,7 @@ Section Proto.
         | O => ops_from s b r                      (* nothing to rotate *)
         | S _ => rotate_ops s b ++ ops_from (S s) 0 r
         end
+    | PqWrites p :: r => repeat (PqmrWrite s) p ++ ops_from s b r
     end.
 End Proto.
 
@@ -101,6 +107,7 @@ Fixpoint expect_from (s b : nat) (h : list hstep) (k : nat) : list (nat * nat) :
       | O => expect_from s b r k
       | S _ => if Nat.leb 4 k then expect_from (S s) 0 r (k - 4) else []
       end
+  | PqWrites p :: r => if Nat.leb p k then expect_from s b r (k - p) else []
   end.
 Definition expect_visible (h : list hstep) (k : nat) : list (nat * nat) := expect_from 0 0 h k.
 
@@ -116,6 +123,7 @@ Fixpoint completed_from (s b : nat) (h : list hstep) (k : nat) : list (nat * nat
       | O => completed_from s b r k
       | S _ => if Nat.leb 4 k then completed_from (S s) 0 r (k - 4) else []
       end
+  | PqWrites p :: r => if Nat.leb p k then completed_from s b r (k - p) else []
   end.
 
 Definition nsegs (h : list hstep) : nat := S (length h).
